@@ -102,15 +102,30 @@ Section Ser.
     match o with
     | OStartTagOpen name =>
         let own := declarations z in
+        (* a no-namespace element that itself declares a (non-empty) default namespace cannot be written *)
+        if N.eqb (n_ns_of_name nm name) nn && existsb (fun d => N.eqb (fst d) ep && negb (N.eqb (snd d) nn)) own
+        then inl EMissingPrefix else
         let undeclare := N.eqb (n_ns_of_name nm name) nn && negb (has_prefix ep own) && has_default_namespace (s_stack st) in
         let decls' := if undeclare then own ++ [(ep, nn)] else own in
         let stack' := fs_push (s_stack st) decls' in
         let und' := if undeclare then z_slot z :: s_undeclared st else s_undeclared st in
         match element_fullname stack' name with
-        | None => inl EMissingPrefix
         | Some fn =>
             inr ({| s_stack := stack'; s_undeclared := und' |},
                  tok false ([60] ++ fn ++ (if undeclare then [32] ++ s_xmlns ++ [61; 34; 34] else [])))
+        | None =>
+            (* the default namespace the name relies on may have been undeclared on an ancestor: declare it again *)
+            let ns := n_ns_of_name nm name in
+            let tree_default := namespace_for_prefix (n_xml_prefix nm) nn (n_xml_ns nm) z ep in
+            if negb (has_prefix ep own) && (match tree_default with Some d => N.eqb d ns | None => false end) then
+              let stack2 := fs_push (fs_pop stack' (match decls' with [] => false | _ => true end)) (decls' ++ [(ep, ns)]) in
+              match element_fullname stack2 name with
+              | None => inl EMissingPrefix
+              | Some fn =>
+                  inr ({| s_stack := stack2; s_undeclared := z_slot z :: und' |},
+                       tok false ([60] ++ fn ++ [32] ++ s_xmlns ++ [61; 34] ++ serialize_attribute (n_ns_str nm ns) ++ [34]))
+              end
+            else inl EMissingPrefix
         end
     | OStartTagClose => inr (st, tok false (if has_children z then [62] else [47; 62]))
     | OEndTag name =>
@@ -310,4 +325,27 @@ Section Ser.
       | inr l => inr (concat (map (fun x => ptoken_text (snd x)) l))
       end.
   End Pretty.
+
+  (* ---------- Xot::serialize_xml_write: optional XML declaration, then the (pretty) serialisation ---------- *)
+  Definition declaration_text (encoding : option str) (standalone : option bool) : str :=
+    [60; 63; 120; 109; 108; 32; 118; 101; 114; 115; 105; 111; 110; 61; 34; 49; 46; 48; 34]            (* the XML declaration up to the version *)
+    ++ (match encoding with
+        | Some e => [32; 101; 110; 99; 111; 100; 105; 110; 103; 61; 34] ++ e ++ [34]                  (* encoding pseudo-attribute *)
+        | None => [] end)
+    ++ (match standalone with
+        | Some b => [32; 115; 116; 97; 110; 100; 97; 108; 111; 110; 101; 61; 34]                      (* standalone pseudo-attribute *)
+                    ++ (if b then [121; 101; 115] else [110; 111]) ++ [34]
+        | None => [] end)
+    ++ [63; 62; 10].                                                                                   (* closing, newline *)
+
+  Definition serialize_xml (decl : option (option str * option bool)) (indent : option (nameid -> bool))
+                           (prm : params) (z : zipper) : sum serr str :=
+    let body := match indent with
+                | Some sup => serialize_pretty_write sup (fun _ => false) prm z
+                | None => serialize_write prm z
+                end in
+    match body with
+    | inl e => inl e
+    | inr s => inr ((match decl with Some (e, sa) => declaration_text e sa | None => [] end) ++ s)
+    end.
 End Ser.
